@@ -58,6 +58,9 @@ def sessions(ctx, progs, n, leg):
             ctx.count("sessions_discarded"); continue
         sess.append(forms[:k])
     jobs = [diff.job_for(f, "s%d" % i, fuel=400000) for i, f in enumerate(sess)]
+    for i, j in enumerate(jobs):
+        if i % 2:
+            diff.age(j, r, r.choice([100, 500, 2000]))      # half of the sessions run on an interpreter that has already seen hundreds of failing forms
     recs = core.run_jobs(jobs, leg, timeout=3000, tag="c01s")
     for forms, rec in zip(sess, recs):
         ctx.evaluations += 1
